@@ -194,7 +194,7 @@ def _update_body(op: int, n0: int, n1: int, nu: int, k0: int, k1: int, ku: int) 
 @harness("C15",
          pre=lambda B, fam, k0, k1, k2, a, b, c: 0 <= fam <= 1 and 4 <= k0 <= 5 and 4 <= k1 <= 5 and 4 <= k2 <= 5
          and len(a) <= B["L"] and len(b) <= B["L"] and len(c) <= B["LC"],
-         bounds={"quick": {"L": 1, "LC": 0}, "thorough": {"L": 2, "LC": 1}},
+         bounds={"quick": {"L": 1, "LC": 0}, "thorough": {"L": 1, "LC": 1}},
          shard={"fam": range(2), "k0": (4, 5), "k1": (4, 5), "k2": (4, 5)},
          sym=["a, b, c: values, str over all code points, len <= L"],
          sel=["fam: colliding family x/x_/x (-> x) or a_b/a-b/a_b_ (-> a-b)", "k0..k2: plain or HTML() per value"],
